@@ -43,7 +43,7 @@ theorem ipsw_saturated (l : List (Row F)) (S : List Nat) (hS : Strata l S) (hpos
     have hsm := (hpos.sample_pos hs).ne'
     have hπ' := hπ s hs
     have hπ0 : π s ≠ 0 := fun e => hsm (by rw [← hπ', e, zero_mul])
-    have b1 := iptw_weight_balance stabT .pop a nt (p s) (W (inSample s) l) hnt0 hnt1 hp0.ne' hp1.ne
+    have b1 := iptw_weight_balance_pop stabT a nt (p s) (W (inSample s) l) hnt0 hnt1 hp0.ne' hp1.ne
     have b2 := ipsw_weight_balance generalize stabS ns (π s) (W (inStratum s) l) hπ0 hns1
     rw [Ntgt_genTarget generalize l S π hπ s hs, hp.arm hs a, mul_assoc, b1]
     simp only [tgtShare]
